@@ -1,4 +1,4 @@
-(* C04 classifier.  0 Agree | 1 ModelMismatch | 2 PropertyFail.
+(* C04 classifier.  0 Agree | 1 ModelMismatch | 2 PropertyFail | 9 harness error.
    Everything is recomputed from what the IMPLEMENTATION returned: the whole-history
    balance and each date-ranged balance against sums of the register's posting amounts. *)
 From Coq Require Import List NArith ZArith Bool QArith Qcanon.
@@ -10,9 +10,12 @@ Definition Q (s e : option Z) (r : list (N * amount)) : query_obs := {| q_start 
 
 (* register lines as printed by `okane register`: account, amount, running total *)
 Record case := { c_entries : list entry; c_obs : lobs; c_queries : list query_obs;
-                 c_register : list (N * amount * amount) }.
+                 c_register : list (N * amount * amount); c_broken : bool }.
 Definition C (es : list entry) (o : lobs) (qs : list query_obs) (rg : list (N * amount * amount)) : case :=
-  {| c_entries := es; c_obs := o; c_queries := qs; c_register := rg |}.
+  {| c_entries := es; c_obs := o; c_queries := qs; c_register := rg; c_broken := false |}.
+(* the harness could not read what the implementation printed: verdict 9 *)
+Definition Broken : case :=
+  {| c_entries := []; c_obs := LPanic; c_queries := []; c_register := []; c_broken := true |}.
 
 Definition formats_of (es : list entry) : formats :=
   fold_left (fun f e => match e with EFormat c dp => set c dp f | _ => f end) es [].
@@ -46,6 +49,7 @@ Definition query_agrees (s : bstate) (q : query_obs) : bool :=
   bal_eqb (q_result q) (balance_report s (q_start q) (q_end q)).
 
 Definition classify (c : case) : N :=
+  if c_broken c then 9%N else
   let m := process (c_entries c) in
   match c_obs c with
   | LPanic => 2%N
